@@ -6,7 +6,7 @@ OCT = "fidget-mesh/src/octree.rs"
 
 
 def txt(n):
-    return A.unparse(n).replace(" ", "")
+    return A.ftxt(n)
 
 
 def builder_fn(name, root=None):
